@@ -71,6 +71,20 @@ class KeyPool:
                     break
         return self._get(name, None)
 
+    def ec_ds_prefix(self, alg=13, flags=257, zero_nibbles=1):
+        """An EC key whose DS SHA-256 digest (owner '.', given flags/algorithm) starts with `zero_nibbles` zero hex digits (random search, cached)."""
+        import hashlib
+        name = f"ec-ds0-{alg}-{flags}-{zero_nibbles}"
+        if name not in self.data:
+            curve = ec.SECP256R1() if alg == 13 else ec.SECP384R1()
+            while True:
+                k = ec.generate_private_key(curve)
+                if hashlib.sha256(b"\x00" + rdata(flags, 3, alg, rfc6605(k.public_key()))).hexdigest().startswith("0" * zero_nibbles):
+                    self.data[name] = k.private_bytes(serialization.Encoding.PEM, serialization.PrivateFormat.PKCS8, serialization.NoEncryption()).decode()
+                    self.dirty = True
+                    break
+        return self._get(name, None)
+
     def rsa_tag_collision(self, alg=8, flags=256, bits=1024):
         """Two distinct RSA keys (e = 65537) whose DNSKEY key tags (for the given flags/algorithm) are equal (birthday search, cached)."""
         names = (f"rsa-coll-{alg}-{flags}-{bits}-a", f"rsa-coll-{alg}-{flags}-{bits}-b")
@@ -478,7 +492,7 @@ def skr_tree(resp: dict):
     return (name, attrs, [("Response", [], [("ResponsePolicy", [], [("KSK", [], ksk[2]), pol_zsk])] + bundles)])
 
 
-def render_tree(t, R=None, permute=False, tail_blanks=True) -> str:
+def render_tree(t, R=None, permute=False, tail_blanks=True, wrap=False) -> str:
     """Plain-form serialisation with random layout (R = random.Random or None for a canonical layout)."""
     name, attrs, body = t
     ws_in = (lambda: R.choice([" ", " ", "  ", "\t", " \t "])) if R else (lambda: " ")
@@ -495,9 +509,14 @@ def render_tree(t, R=None, permute=False, tail_blanks=True) -> str:
         return f"<{name}{astr}{tail}></{name}>"
     if isinstance(body, str):
         pad = ws_el if R else (lambda: "")
+        if R and wrap and name in ("PublicKey", "SignatureData") and len(body) > 40:
+            # xsd:base64Binary may be broken into lines (as mail and PEM tools do): the value is the same. One key is written the same way wherever it occurs.
+            import zlib
+            w, sep = [(64, "\n"), (76, "\n"), (64, "\n        "), (76, "\n\t"), (4, " "), (10**6, "")][zlib.crc32(body.encode()) % 6]
+            body = sep.join(body[i:i + w] for i in range(0, len(body), w))
         return f"<{name}{astr}{tail}>{pad()}{body}{pad()}</{name}>"
     children = list(body)
     if R and permute:
         R.shuffle(children)
-    inner = "".join(ws_el() + render_tree(c, R, permute, tail_blanks) for c in children)
+    inner = "".join(ws_el() + render_tree(c, R, permute, tail_blanks, wrap) for c in children)
     return f"<{name}{astr}{tail}>{inner}{ws_el()}</{name}>"
